@@ -620,8 +620,11 @@ def op_run_hyperlink(run):
     r = a_run(run)
     url = run.rnd.choice(["http://a.example/x?y=1&z=2", "http://a.example/x?y=1&z=2", "https://b.example/<q>", "mailto:x@y.z", None, None])
     r.hyperlink.address = url
+    again = url is not None and run.rnd.random() < 0.3
+    if again:  # the same value assigned once more (idempotent by any reading of the API)
+        r.hyperlink.address = r.hyperlink.address
     run.acc.hit("run.hyperlink.address")
-    return "set" if url else "clear"
+    return ("set" if url else "clear") + (" twice" if again else "")
 
 
 def op_hyperlink_share(run):
@@ -737,15 +740,22 @@ def op_shadow(run):
 def op_click_action(run):
     r = run.rnd
     s, sh = a_shape(run, lambda x: x.__class__.__name__ != "GroupShape" and hasattr(x, "click_action"))
-    k = r.choice(["url", "url", "clear", "jump", "unjump"])
+    k = r.choice(["url", "url", "clear", "jump", "jump", "unjump"])
+    again = r.random() < 0.35
     if k == "url":
         sh.click_action.hyperlink.address = r.choice(["http://a.example/x?y=1&z=2", "https://c.example/%7Euser#f"])
+        if again:  # the value just read is assigned back
+            sh.click_action.hyperlink.address = sh.click_action.hyperlink.address
     elif k == "clear":
         sh.click_action.hyperlink.address = None
     elif k == "jump":
-        sh.click_action.target_slide = a_slide(run)
+        tgt = a_slide(run)
+        sh.click_action.target_slide = tgt
+        if again:  # the same target once more / the target just read assigned back
+            sh.click_action.target_slide = tgt if r.random() < 0.5 else sh.click_action.target_slide
     else:
         sh.click_action.target_slide = None
+    k += " twice" if again and k in ("url", "jump") else ""
     run.acc.hit("click_action:" + k)
     return "%s on %s" % (k, sh.__class__.__name__)
 
